@@ -70,6 +70,11 @@ class Ctx:
         self.cluster_example = {}
         self.cluster_break = {}
 
+    def case_rng(self, key):
+        """A generator that depends only on (property, seed, case key): a case can be rebuilt
+        from its replay file without re-running the cases before it."""
+        return random.Random("{}:{}:{}".format(self.prop, self.seed, key))
+
     # ---- workload bookkeeping
     def quick(self):
         return self.tier == "quick"
